@@ -147,6 +147,18 @@ Proof. exact zeus_pinned_rows. Qed.
 Theorem C05_pyswarms_pairing_refuted : ~ pyswarms_pairing_statement.
 Proof. exact pyswarms_refuted. Qed.
 
+(* the repaired conversion (proposed_fixes/C05-pyswarms-pbest-samples; FPyswarmsPbest in the correspondence once
+   the source has it): the particles' personal bests, under pyswarms' contract pbest_cost[i] = cost(pbest_pos[i]) *)
+Theorem C05_pyswarms_pairing_fixed :
+  forall (V : Type) (add sub : V -> V -> V) (neghalf : V -> V) (one : V) (prior L : list V -> V) (nonneg : V -> Prop),
+    (forall a b : V, sub (add a b) b = a) -> nonneg one ->
+    forall (paths : list path) (rows : list (list V)) (cost : list V) (out : list (sample V)),
+      rows_ok V paths rows ->
+      Forall2 (fun x c => neghalf c = add (L x) (prior x)) rows cost ->
+      pyswarms_pbest_convert V sub neghalf one prior paths rows cost = Some out ->
+      Forall (faithful V prior L nonneg) out /\ map (s_vec V) out = rows.
+Proof. exact pyswarms_pbest_pairing. Qed.
+
 (* guard excluding the defect: a swarm of one particle whose best-cost history is that particle's cost *)
 Theorem C05_pyswarms_pairing_partial :
   forall (V : Type) (add sub : V -> V -> V) (neghalf : V -> V) (one : V) (prior L : list V -> V) (nonneg : V -> Prop),
